@@ -204,8 +204,12 @@ def run(ctx):
             thr = [n2 for n2 in g.nodes if n2.kind == 'stmt' and isinstance(n2.ast, ast.Expr) and isinstance(n2.ast.value, ast.Call) and dotted(n2.ast.value.func) == 'throw'
                    and n2.ast.value.args and dotted(n2.ast.value.args[0]) == 'OptimisticCheckError']
             if not thr or g.exit.id in g.reach(ts): ok = False
-            conj = [norm(v) for v in x.ast.values] if isinstance(x.ast, ast.BoolOp) else [norm(x.ast)]
-            if sorted(conj) != sorted(['cursor.rowcount == 0', 'cache.db_session.optimistic']): ok = False
+            from ..q import resolve_attr_aliases as _rn
+            t_ = _rn(su.node, x.ast)                      # `db_session = cache.db_session` read into a local reads like the attribute
+            conj = [norm(v) for v in t_.values] if isinstance(t_, ast.BoolOp) else [norm(t_)]
+            conj0 = [norm(v) for v in x.ast.values] if isinstance(x.ast, ast.BoolOp) else [norm(x.ast)]
+            want = sorted(['cursor.rowcount == 0', 'cache.db_session.optimistic'])
+            if sorted(conj) != want and sorted(conj0) != want: ok = False
     ctx.ob('C20-CHECK.zero-rows-updated-raises', su, rc[0].stmt if rc else su.node, ok,
            '' if ok else 'an UPDATE that matched no row in an optimistic session does not raise OptimisticCheckError on every path')
 
